@@ -242,8 +242,16 @@ class BootSigmaStub:
                     v = ctx.stub_real("boot_sigma_unseeded%d" % stub.calls)
                     ctx.assume(v > 0)
             else:
+                if isinstance(seedv, np.random.Generator):
+                    # a generator: its answer is a function of its seed and of how far it has been advanced
+                    bg = seedv.bit_generator
+                    ent = getattr(getattr(bg, "seed_seq", None), "entropy", None)
+                    seedv = (hash((str(ent), str(bg.state))) % (10 ** 9))
+                    bg.advance(1) if hasattr(bg, "advance") else None
+                elif isinstance(seedv, np.random.RandomState):
+                    seedv = hash(str(seedv.get_state()[1][:8].tolist()) + str(seedv.get_state()[2])) % (10 ** 9)
                 if not isinstance(seedv, (int, np.integer)):
-                    raise sym.Inconclusive("bootstrap seeded with a generator object")
+                    raise sym.Inconclusive("bootstrap seeded with an object of type %s" % type(seedv).__name__)
                 args = cells(d) + [RV(float(confidence_level)), RV(int(seedv)), RV(int(n_resamples)),
                                    RV(hash(getattr(statistic, "__name__", "f")) % 997)]
                 v = stub_values(ctx, "BOOT_%d" % d.size, args, 1, label="boot_sigma%d" % stub.calls)[0]
